@@ -181,7 +181,7 @@ Definition judge_screen (c : tcase) (st : tstate) (a : tact) (o : tobs) : nat * 
     let '(mout, s') := match a with
                        | XClear _ => clear_stream (tc_ksup c) s
                        | XStart _ => start_stream (tc_ksup c) [] s
-                       | _ => stop_stream (tc_ksup c) [] s
+                       | _ => stop_stream (tc_ksup c) true [] s      (* urwid 2.6: _stop() calls clear() *)
                        end in
     let model :=
       if negb (dels_same (filter is_big_del mout) (filter is_big_del out)) then 4
